@@ -599,4 +599,221 @@ theorem uriIntoOptlist_not_oob (dst : Bytes) (u : MU.Uri) : uriIntoOptlist dst u
     | rej => simp
     | ok qs => simp
 
+/-! ### S recognises what it should: composing a URI text from its parts and splitting it again -/
+
+theorem findSchemeEnd_append (n x : Bytes) (h : (0x3a : UInt8) ∉ n) :
+    findSchemeEnd (n ++ 0x3a :: 0x2f :: 0x2f :: x) = some (n, x) := by
+  induction n with
+  | nil => simp [findSchemeEnd]
+  | cons c r ih =>
+    simp only [List.mem_cons, not_or] at h
+    have hc : ¬ (c = 0x3a) := fun e => h.1 e.symm
+    simp only [List.cons_append, findSchemeEnd, hc, false_and, if_false, ih h.2]
+
+/-- breaking a string at the first byte satisfying `p`: the part before has none, the rest is empty or starts with one -/
+theorem breakAt_append (p : UInt8 → Bool) (a b : Bytes) (ha : ∀ c ∈ a, p c = false)
+    (hb : b = [] ∨ ∃ c t, b = c :: t ∧ p c = true) : breakAt p (a ++ b) = (a, b) := by
+  induction a with
+  | nil =>
+    rcases hb with e | ⟨c, t, e, hc⟩
+    · subst e; rfl
+    · subst e; simp [breakAt, hc]
+  | cons c r ih =>
+    have h1 := ha c (by simp)
+    have h2 := ih (fun x hx => ha x (by simp [hx]))
+    simp [breakAt, h1, h2]
+
+/-- text of the host part of an authority -/
+def hostText (h : Bytes) (v6 : Bool) : Bytes := if v6 then 0x5b :: h ++ [0x5d] else h
+/-- text of the port part: nothing, or ':' and digits (possibly none) -/
+def portText : Option Bytes → Bytes
+  | none => []
+  | some d => 0x3a :: d
+
+/-- what may follow the authority: nothing, a path, or a query -/
+def TailStart (rest : Bytes) : Prop := rest = [] ∨ ∃ t, rest = 0x2f :: t ∨ rest = 0x3f :: t
+
+/-- a host as S takes it: non-empty; inside brackets anything but ']', else no ':' '/' '?' and not starting with '[' -/
+def HostOk (h : Bytes) (v6 : Bool) : Prop :=
+  h ≠ [] ∧ (if v6 then (0x5d : UInt8) ∉ h else h.head? ≠ some 0x5b ∧ ∀ c ∈ h, c ≠ 0x3a ∧ c ≠ 0x2f ∧ c ≠ 0x3f)
+
+def PortOk : Option Bytes → Prop
+  | none => True
+  | some d => (∀ c ∈ d, Spec.Uri.isDigit c = true) ∧ decimal d ≤ 65535
+
+def portValue (dflt : Nat) : Option Bytes → Nat
+  | none => dflt
+  | some d => if d = [] then dflt else decimal d
+
+theorem hostPart_text (h : Bytes) (v6 : Bool) (r : Bytes) (hh : HostOk h v6)
+    (hr : r = [] ∨ ∃ c t, r = c :: t ∧ (c = 0x3a ∨ c = 0x2f ∨ c = 0x3f)) :
+    hostPart (hostText h v6 ++ r) = some (h, r) := by
+  obtain ⟨hne, hc⟩ := hh
+  have hemp : h.isEmpty = false := by cases h with | nil => exact absurd rfl hne | cons _ _ => rfl
+  cases v6 with
+  | true =>
+    simp only [if_true] at hc
+    have hb : breakAt (· == 0x5d) (h ++ 0x5d :: r) = (h, 0x5d :: r) :=
+      breakAt_append _ h _ (fun c hcm => by
+        have : c ≠ 0x5d := fun e => hc (e ▸ hcm)
+        simpa using this) (Or.inr ⟨0x5d, r, rfl, by simp⟩)
+    simp only [hostText, if_true, List.cons_append, List.append_assoc, List.nil_append, hostPart, hb, hemp]
+    simp
+  | false =>
+    simp only [Bool.false_eq_true, if_false] at hc
+    obtain ⟨hhead, hall⟩ := hc
+    cases h with
+    | nil => exact absurd rfl hne
+    | cons c0 t =>
+      have hc0 : ¬ (c0 = 0x5b) := by simpa using hhead
+      have hb : breakAt (fun c => c == 0x3a || c == 0x2f || c == 0x3f) ((c0 :: t) ++ r) = (c0 :: t, r) := by
+        apply breakAt_append
+        · intro c hcm
+          have ⟨a1, a2, a3⟩ := hall c hcm
+          simp [a1, a2, a3]
+        · rcases hr with e | ⟨c, t', e, hcc⟩
+          · exact Or.inl e
+          · refine Or.inr ⟨c, t', e, ?_⟩
+            rcases hcc with e | e | e <;> subst e <;> rfl
+      simp only [hostText, Bool.false_eq_true, if_false, List.cons_append] at hb ⊢
+      simp only [hostPart, hc0, if_false, hb]
+      simp
+
+theorem portPart_text (ds : Option Bytes) (rest : Bytes) (hp : PortOk ds) (hr : TailStart rest) :
+    portPart (portText ds ++ rest) = some ((match ds with | none => none | some d => if d = [] then none else some (decimal d)), rest) := by
+  have hrest : rest = [] ∨ ∃ c t, rest = c :: t ∧ (!Spec.Uri.isDigit c) = true := by
+    rcases hr with e | ⟨t, e | e⟩
+    · exact Or.inl e
+    · exact Or.inr ⟨0x2f, t, e, by decide⟩
+    · exact Or.inr ⟨0x3f, t, e, by decide⟩
+  cases ds with
+  | none =>
+    simp only [portText, List.nil_append]
+    rcases hr with e | ⟨t, e | e⟩ <;> subst e <;> simp [portPart]
+  | some d =>
+    obtain ⟨hd, hle⟩ := hp
+    have hb : breakAt (fun c => !Spec.Uri.isDigit c) (d ++ rest) = (d, rest) :=
+      breakAt_append _ d rest (fun c hc => by simp [hd c hc]) hrest
+    simp only [portText, List.cons_append, portPart, if_true, hb]
+    cases d with
+    | nil => simp
+    | cons c t => simp [hle]
+
+
+/-- the scheme names of the table (T1): non-empty, not starting with '/', without ':', and unique -/
+theorem schemes_names : ∀ e ∈ Generated.Uri.schemes,
+    e.1.head? ≠ none ∧ e.1.head? ≠ some 0x2f ∧ (0x3a : UInt8) ∉ e.1 ∧
+    Generated.Uri.schemes.find? (fun x => x.1 == e.1) = some e := by decide
+
+theorem splitUri_compose (proxy : Bool) (e : Bytes × Nat × Bool × Nat) (he : e ∈ Generated.Uri.schemes)
+    (hpx : e.2.2.1 = true → proxy = true) (h : Bytes) (v6 : Bool) (ds : Option Bytes) (rest path query : Bytes)
+    (hh : HostOk h v6) (hp : PortOk ds) (hr : TailStart rest) (hpq : pathQuery rest = some (path, query)) :
+    splitUri Generated.Uri.schemes proxy (e.1 ++ [0x3a, 0x2f, 0x2f] ++ hostText h v6 ++ portText ds ++ rest) =
+      some ⟨e.2.2.2, h, portValue e.2.1 ds, path, query⟩ := by
+  obtain ⟨n1, n2, n3, n4⟩ := schemes_names e he
+  obtain ⟨name, dport, proxyOnly, id⟩ := e
+  dsimp only at *
+  have hs : name ++ [0x3a, 0x2f, 0x2f] ++ hostText h v6 ++ portText ds ++ rest =
+      name ++ 0x3a :: 0x2f :: 0x2f :: (hostText h v6 ++ (portText ds ++ rest)) := by simp
+  rw [hs]
+  have hfe := findSchemeEnd_append name (hostText h v6 ++ (portText ds ++ rest)) n3
+  cases name with
+  | nil => simp at n1
+  | cons c0 t =>
+    have hc0 : ¬ (c0 = 0x2f) := by simpa using n2
+    have hr2 : portText ds ++ rest = [] ∨ ∃ c t, portText ds ++ rest = c :: t ∧ (c = 0x3a ∨ c = 0x2f ∨ c = 0x3f) := by
+      cases ds with
+      | none =>
+        rcases hr with e | ⟨t, e | e⟩
+        · left; simp [portText, e]
+        · right; exact ⟨0x2f, t, by simp [portText, e], Or.inr (Or.inl rfl)⟩
+        · right; exact ⟨0x3f, t, by simp [portText, e], Or.inr (Or.inr rfl)⟩
+      | some d => right; exact ⟨0x3a, d ++ rest, by simp [portText], Or.inl rfl⟩
+    have hpo : (proxyOnly && !proxy) = false := by
+      cases proxyOnly with
+      | false => rfl
+      | true => simp [hpx rfl]
+    rw [List.cons_append] at hfe ⊢
+    simp only [splitUri, hc0, if_false, hfe, n4, hpo, Bool.false_eq_true,
+      hostPart_text h v6 _ hh hr2, portPart_text ds rest hp hr, hpq]
+    cases ds with
+    | none => rfl
+    | some d =>
+      by_cases hd : d = [] <;> simp [portValue, hd]
+
+theorem unixStart_append (h r : Bytes) (hu : unixStart h = false)
+    (hr : r = [] ∨ ∃ c t, r = c :: t ∧ (c = 0x3a ∨ c = 0x2f ∨ c = 0x3f)) : unixStart (h ++ r) = false := by
+  cases h with
+  | nil =>
+    rcases hr with e | ⟨c, t, e, hc⟩
+    · subst e; rfl
+    · subst e
+      cases t with
+      | nil => rfl
+      | cons d t' =>
+        cases t' with
+        | nil => rfl
+        | cons d' t'' => rcases hc with e | e | e <;> subst e <;> simp [unixStart]
+  | cons a h1 =>
+    cases h1 with
+    | nil =>
+      rcases hr with e | ⟨c, t, e, hc⟩
+      · subst e; rfl
+      · subst e
+        cases t with
+        | nil => rfl
+        | cons d t' => rcases hc with e | e | e <;> subst e <;> simp [unixStart]
+    | cons b h2 =>
+      cases h2 with
+      | nil =>
+        rcases hr with e | ⟨c, t, e, hc⟩
+        · subst e; rfl
+        · subst e
+          rcases hc with e | e | e <;> subst e <;> simp [unixStart]
+      | cons c h3 => exact hu
+
+theorem unixAuthority_compose (e : Bytes × Nat × Bool × Nat) (he : e ∈ Generated.Uri.schemes) (h : Bytes) (v6 : Bool)
+    (ds : Option Bytes) (rest : Bytes) (hr : TailStart rest) (hu : v6 = true ∨ unixStart h = false) :
+    unixAuthority (e.1 ++ [0x3a, 0x2f, 0x2f] ++ hostText h v6 ++ portText ds ++ rest) = false := by
+  obtain ⟨n1, n2, n3, _⟩ := schemes_names e he
+  have hs : e.1 ++ [0x3a, 0x2f, 0x2f] ++ hostText h v6 ++ portText ds ++ rest =
+      e.1 ++ 0x3a :: 0x2f :: 0x2f :: (hostText h v6 ++ (portText ds ++ rest)) := by simp
+  rw [hs]
+  have hfe := findSchemeEnd_append e.1 (hostText h v6 ++ (portText ds ++ rest)) n3
+  cases hn : e.1 with
+  | nil => simp [hn] at n1
+  | cons c0 t =>
+    rw [hn] at hfe n2
+    have hc0 : ¬ (c0 = 0x2f) := by simpa using n2
+    rw [List.cons_append] at hfe ⊢
+    simp only [unixAuthority, hc0, if_false, hfe]
+    rcases hu with e1 | e1
+    · subst e1
+      simp only [hostText, if_true, List.cons_append]
+      cases h ++ [0x5d] ++ (portText ds ++ rest) with
+      | nil => rfl
+      | cons a r1 =>
+        cases r1 with
+        | nil => rfl
+        | cons b r2 => simp [unixStart]
+    · cases v6 with
+      | true =>
+        simp only [hostText, if_true, List.cons_append]
+        cases h ++ [0x5d] ++ (portText ds ++ rest) with
+        | nil => rfl
+        | cons a r1 =>
+          cases r1 with
+          | nil => rfl
+          | cons b r2 => simp [unixStart]
+      | false =>
+        simp only [hostText, Bool.false_eq_true, if_false]
+        apply unixStart_append h _ e1
+        cases ds with
+        | none =>
+          rcases hr with e | ⟨t, e | e⟩
+          · left; simp [portText, e]
+          · right; exact ⟨0x2f, t, by simp [portText, e], Or.inr (Or.inl rfl)⟩
+          · right; exact ⟨0x3f, t, by simp [portText, e], Or.inr (Or.inr rfl)⟩
+        | some d => right; exact ⟨0x3a, d ++ rest, by simp [portText], Or.inl rfl⟩
+
 end Coap.UriL
